@@ -12,7 +12,7 @@ import (
 func init() {
 	register(&Check{
 		ID: "C17", Level: "exploration", QuickSecs: 150, ThoroughSecs: 1200,
-		Rule:        "grammars over {., [^a], [a\\uFFFD], \"\\uFFFD\", 'a', \"é\"} x {*, !, ?} x seq/choice up to N nodes (quick 4, thorough 5); ALL inputs up to length L (quick 3, thorough 4) over the bytes {a, C3, A9, E2, 82, FF, C0, ED, A0, 80} (valid 2-byte sequence, truncated 3-byte sequence, overlong lead, surrogate lead, stray continuation); AllowInvalidUTF8 on/off; plus left-recursive rules E <- E tail / 'a' followed by .* (generated with -support-left-recursion, with and without -optimize-parser) where the invalid byte is first met inside a discarded growth iteration. An independent RFC 3629 decoder gives (rune,width) per offset; the reference matches over those and logs every offset advanced onto. Checked: value/text are the original bytes and offsets count bytes (exact value comparison), with the option off the set of positions carrying an 'invalid encoding' error equals the set of invalid bytes advanced onto, with it on there is none. Non-trivial = the parser advanced onto at least one invalid byte.",
+		Rule:        "grammars over {., [^a], [a\\uFFFD], \"\\uFFFD\", 'a', \"é\"} x {*, !, ?} x seq/choice up to N nodes (quick 4, thorough 5); ALL inputs up to length L (quick 3, thorough 4) over the bytes {a, C3, A9, E2, 82, FF, C0, ED, A0, 80} (valid 2-byte sequence, truncated 3-byte sequence, overlong lead, surrogate lead, stray continuation); AllowInvalidUTF8 on/off; plus a literal join family (every ordered pair of 10 literals holding whole or partial multi-byte sequences, adjacent or separated by an inlined rule, generated with -optimize-grammar, AllowInvalidUTF8, inputs over 7 bytes up to 4: match and matched bytes against the bytewise reference); plus left-recursive rules E <- E tail / 'a' followed by .* (generated with -support-left-recursion, with and without -optimize-parser) where the invalid byte is first met inside a discarded growth iteration. An independent RFC 3629 decoder gives (rune,width) per offset; the reference matches over those and logs every offset advanced onto. Checked: value/text are the original bytes and offsets count bytes (exact value comparison), with the option off the set of positions carrying an 'invalid encoding' error equals the set of invalid bytes advanced onto, with it on there is none. Non-trivial = the parser advanced onto at least one invalid byte.",
 		Assumptions: []string{"E1 loader", "own RFC 3629 decoder in engine/peg"},
 		Run:         runC17,
 	})
@@ -119,6 +119,63 @@ func runC17(c *ShardCtx) {
 					{Name: "S", Expr: peg.Action(100, peg.Seq(peg.Label("v", peg.Ref("E")), peg.Label("r", rest.Clone())), "v", "r")},
 					{Name: "E", Expr: peg.Choice(peg.Seq(peg.Ref("E"), tail.Clone()), lit("a"))}}}
 				runGrammar(c, g, &lrFam)
+			}
+		}
+	}
+	// -optimize-grammar: adjacent literals holding pieces of multi-byte sequences (written with \x
+	// escapes) are matched bytewise; joining them must not change what they match
+	{
+		pieces := []string{"k", "\xc3", "\xa9", "k\xc3", "\xa9k", "\xe2\x82", "\xac", "é", "\xe2", "\x82\xac"}
+		joinInputs := peg.Inputs([]string{"k", "\xc3", "\xa9", "\xe2", "\x82", "\xac", "\xff"}, 4)
+		check := func(g *peg.Grammar) {
+			text := peg.Print(g, nil)
+			c.Res.Grammars++
+			for _, gen := range []core.Gen{{OptGrammar: true}, {OptGrammar: true, Optimize: true}} {
+				b := buildOrCount(c, text, gen)
+				if b == nil {
+					continue
+				}
+				for _, in := range joinInputs {
+					o := rtapi.RunOpts{MaxExpr: 300, AllowInvalid: true}
+					obs := b.Run(in, &o, nil)
+					ref := peg.Run(g, in, nil, core.RefOptions(&o, b.Flags))
+					c.Res.Evaluations++
+					if ref.Outcome != peg.OResult {
+						c.Res.Skipped++
+						continue
+					}
+					if ref.Matched {
+						c.Res.Nontrivial++
+					}
+					desc := ""
+					switch {
+					case obs.Diverged:
+						desc = "did not return"
+					case failed(obs) == ref.Matched:
+						desc = fmt.Sprintf("-optimize-grammar: match=%v, bytewise reference match=%v", !failed(obs), ref.Matched)
+					case ref.Matched && obs.Flat != ref.Flat:
+						desc = fmt.Sprintf("-optimize-grammar: matched bytes %q, reference %q", obs.Flat, ref.Flat)
+					}
+					if desc != "" {
+						c.Report(Violation{Desc: desc, Grammar: text, Gen: gen.String(), Input: string(in), InputHex: hexOf(in), Opts: optsString(&o), Diffs: []string{desc}}, "",
+							&ConfCase{Text: text, Gen: gen, HasState: b.Flags.HasState(), HasMemo: b.Flags.HasMemo(), Runs: []ConfRun{{Input: in, Opts: o, Obs: obs}}})
+					}
+				}
+			}
+		}
+		for _, x := range pieces {
+			for _, y := range pieces {
+				idx++
+				if !c.Mine(idx) {
+					continue
+				}
+				if c.Expired("literal join family") {
+					return
+				}
+				check(&peg.Grammar{Rules: []*peg.Rule{{Name: "S", Expr: peg.Seq(peg.Lit(x), peg.Lit(y), peg.Star(peg.Any()))}}})
+				if len(x) == 1 || len(y) == 1 {
+					check(&peg.Grammar{Rules: []*peg.Rule{{Name: "S", Expr: peg.Seq(peg.Lit(x), peg.Ref("T"), peg.Lit("\xa9"), peg.Not(peg.Any()))}, {Name: "T", Expr: peg.Lit(y)}}})
+				}
 			}
 		}
 	}
